@@ -587,6 +587,16 @@ class Evaluator:
                 return ent
             if isinstance(ent, Const):
                 return self.const(ent)
+        if not isinstance(base, Abs) and \
+                type(base).__module__.startswith("gfaverif") and \
+                isinstance(base, (list, dict, set)):
+            # a concrete stand-in supplied by a rule (e.g. a list subclass
+            # modelling an array): its own attributes, then the builtin's
+            if attr in getattr(base, "__dict__", {}):
+                return base.__dict__[attr]
+            if hasattr(base, attr) and callable(getattr(base, attr)):
+                return ("pybound", base, attr)
+            raise Raised("builtins.AttributeError")
         if base is None or type(base) in (str, int, float, bool, list, dict,
                                           tuple, set, frozenset, bytes) or \
                 isinstance(base, (_re.Match, _re.Pattern)):
@@ -739,6 +749,10 @@ class Evaluator:
                         return self.getattr(o, a, node)
                     except Unsupported:
                         return self.ev(node.args[2])
+                    except Raised as r:
+                        if str(r.cls).endswith("AttributeError"):
+                            return self.ev(node.args[2])
+                        raise
             if f.id == "setattr" and len(node.args) == 3 and \
                     not node.keywords:
                 # setattr(o, "name", v) is the statement o.name = v
